@@ -236,7 +236,9 @@ struct Exec {
     hist = sampler_name + ":";
   }
 
-  tr::SpanContext active_model() const { return stack.span_of.empty() ? tr::SpanContext::GetInvalid() : spans[stack.span_of.back()].ctx; }
+  // span_of holds the index of the program's span made active by each scope, or -1 / -2 for a foreign span with a half-valid
+  // context (push_foreign): those are not valid parents, the model's active context is "none"
+  tr::SpanContext active_model() const { return (stack.span_of.empty() || stack.span_of.back() < 0) ? tr::SpanContext::GetInvalid() : spans[stack.span_of.back()].ctx; }
 
   tr::SpanContext remote(uint8_t flags, bool with_ts) {
     ++remote_no;
@@ -255,6 +257,8 @@ struct Exec {
     for (int i = 0; i < 3 && i < n; ++i) ops.push_back(Op{0, P_CTX_SPAN_BASE + i});
     for (int i = 0; i < 3 && i < n; ++i) ops.push_back(Op{1, n - 1 - i});
     if (!stack.scopes.empty()) ops.push_back(Op{2, 0});
+    ops.push_back(Op{4, 0});
+    ops.push_back(Op{4, 1});
     int e = 0;
     for (int i = n - 1; i >= 0 && e < 2; --i)
       if (!spans[i].ended) { ops.push_back(Op{3, i}); ++e; }
@@ -433,6 +437,21 @@ struct Exec {
     stack.scopes.emplace_back(new tr::Scope(tr::Tracer::WithActiveSpan(spans[i].sp)));
     stack.span_of.push_back(i);
     hist += vf::sfmt(" Push(#%d)", i);
+    check_active();
+  }
+  // A span that is active but is not a valid parent: its context has a zero trace id and a non-zero span id (variant 0) or a
+  // non-zero trace id and a zero span id (variant 1) - what a careless propagator or wrapper can leave on the stack. "Without
+  // a valid parent" a span started under it is a new root with fresh ids, no parent span id and nothing inherited.
+  void push_foreign(int variant) {
+    c.stage("WithActiveSpan(half-valid)");
+    tr::SpanContext sc = variant == 0 ? tr::SpanContext(tr::TraceId(), make_span_id(0xdd, 1), tr::TraceFlags(0x01), false, tr::TraceState::FromHeader("half=1"))
+                                      : tr::SpanContext(c05_trace_id(0xdd, 2), tr::SpanId(), tr::TraceFlags(0x01), true, tr::TraceState::FromHeader("half=2"));
+    seen_span_ids.insert(hex(sc.span_id()));
+    seen_trace_ids.insert(hex(sc.trace_id()));
+    nostd::shared_ptr<tr::Span> foreign(new tr::DefaultSpan(sc));
+    stack.scopes.emplace_back(new tr::Scope(tr::Tracer::WithActiveSpan(foreign)));
+    stack.span_of.push_back(-1 - variant);
+    hist += variant == 0 ? " Push(foreign span: zero trace id, span id set)" : " Push(foreign span: trace id set, zero span id)";
     check_active();
   }
   void pop() {
@@ -635,6 +654,7 @@ void run(vf::Ctx &c) {
       case 0: x.start(op.arg); break;
       case 1: x.push(op.arg); break;
       case 2: x.pop(); break;
+      case 4: x.push_foreign(op.arg); break;
       default: x.end(op.arg);
     }
     c.step();
